@@ -237,6 +237,43 @@ def dtor_info(f, rel):
     return show(X), sorted(set(best) | cond_rel)
 
 
+def uninit_reads(f):
+    """[(read element, variable name)] for reads of a scalar or pointer local that is not assigned on every path before the read
+    (definite assignment: a must-analysis; taking the variable's address counts as assigning it -- out-parameters)."""
+    u = f.unit
+    locs = {}
+    for e in f.all_elems():
+        if e.cls == "DeclStmt":
+            for d in e.decls or []:
+                if isinstance(d, dict) and d.get("kind") == "local" and not d.get("init") and not d.get("static"):
+                    if (u.types.get(d.get("ty")) or {}).get("kind") in ("int", "ptr", "enum", "bool", "float"):
+                        locs[d["id"]] = d["name"]
+    if not locs:
+        return [], 0
+
+    def tr(st, e):
+        if (e.is_assign and e.op == "=") or (e.cls == "UnaryOperator" and e.op == "&"):
+            t = norm(e.kid(0))
+            if t[0] == "v" and len(t) > 2 and t[2] in locs:
+                return st | frozenset([t[2]])
+        return st
+    sv = Solver(f, frozenset(), tr, None, lambda a, b: a & b).run()
+    out = []
+    reads = [0]
+
+    def visit(e, st):
+        if e.cls == "ImplicitCastExpr" and e.op == "LValueToRValue":
+            k = e.kid(0).strip() if e.kid(0) is not None else None
+            if k is not None and k.cls == "DeclRefExpr":
+                t = norm(k)
+                if t[0] == "v" and len(t) > 2 and t[2] in locs:
+                    reads[0] += 1
+                    if t[2] not in st:
+                        out.append((e, t[1]))
+    sv.visit(visit)
+    return out, reads[0]
+
+
 def apply(rep, pid, files, tier):
     """Run the reference rules on the .c files among `files` that are library units."""
     from . import cdb as _cdb
@@ -265,6 +302,21 @@ def apply(rep, pid, files, tier):
             if f.file != up and not (f.file in files):
                 continue
             key = f.name
+            # UNINIT (no reference needed)
+            if f.file == up or f.file in files:
+                bad, nreads = uninit_reads(f)
+                if nreads:
+                    n += 1
+                    seen_v = set()
+                    for e, name in bad:
+                        if name in seen_v:
+                            continue
+                        seen_v.add(name)
+                        rep.bad("UNINIT", "%s: %s is read" % (f.name, name), e.where,
+                                "a path reaches this read of the local `%s` without any assignment to it (nor its address taken): its value is whatever the stack held"
+                                % name, function=f.name, construct="uninit:" + name)
+                    if not bad:
+                        rep.ok("UNINIT", "%s: every read of a local follows an assignment to it" % f.name, f.loc, "%d reads" % nreads)
             # RETVAL
             want = (ref_ret.get(f.file) or {}).get(key)
             if want is not None:
